@@ -216,7 +216,8 @@ theorem chunks_partition (bw nbpp height width pref : Nat) (hbw : 0 < bw)
     rw [Nat.mul_assoc]
     omega
 
-example : (4 : Nat) ≤ BUFFER_BYTES / (16 * 4) ∧ roundDown (BUFFER_BYTES / (16 * 4)) 4 = 48 := by decide
+example : (4 : Nat) ≤ BUFFER_BYTES / (16 * 4) ∧ 4 ≤ roundDown (BUFFER_BYTES / (16 * 4)) 4 ∧
+    roundDown (BUFFER_BYTES / (16 * 4)) 4 % 4 = 0 := by decide
 
 /-- `pref_pos`, finite part: for every block shape of the format table (2×1, 8×1, 4×4 and the 14 ASTC
 shapes), every native pixel size (1..16 bytes) and every range height `1..bh` the buffer width is at
